@@ -69,12 +69,13 @@ theorem C17_no_cwd (cwd₁ cwd₂ dir p : Str) (hd : dir.isEmpty = false) :
     absoluteFrom cwd₁ dir p = absoluteFrom cwd₂ dir p := by
   unfold absoluteFrom; simp [hd]
 
-/-- what counts as a specifier path: the first component has length 2, starts with '%' and is not "%%" -/
+/-- what counts as a specifier path: the first component is two bytes long, starts with '%' and is not "%%"
+    (any second byte: `%h`, `%S`, `%1` alike; `%é` is three bytes and does not count) -/
 theorem C17_specifier (p : Str) :
     startsWithSpecifier p = true ↔
-      (1 < p.length ∧ firstComponentLen p = 2 ∧ startsWith p ['%', '%'] = false ∧ startsWith p ['%'] = true) := by
+      (1 < byteLen p ∧ firstComponentLen p = 2 ∧ startsWith p ['%', '%'] = false ∧ startsWith p ['%'] = true) := by
   unfold startsWithSpecifier
-  by_cases h1 : p.length ≤ 1
+  by_cases h1 : byteLen p ≤ 1
   · simp [h1]; omega
   · by_cases h2 : firstComponentLen p = 2
     · by_cases h3 : startsWith p ['%', '%'] = true
@@ -86,5 +87,6 @@ theorem C17_specifier (p : Str) :
 example : cleaned "/a/./b/../../c//d/".toList = "/c/d".toList := by decide
 example : cleaned "/../..".toList = "/".toList := by decide
 example : startsWithSpecifier "%h/x".toList = true ∧ startsWithSpecifier "%%/x".toList = false ∧ startsWithSpecifier "%abc".toList = false := by decide
+example : startsWithSpecifier "%S/x".toList = true ∧ startsWithSpecifier "%1".toList = true ∧ startsWithSpecifier "%é/x".toList = false := by decide
 
 end Pth
